@@ -20,6 +20,8 @@ def fbits(fs):
 def run_impl(case):
     rnd = lib.rng_for(case["seed"], case["idx"], 808)
     n = rnd.choice([1, 2, 2, 3, 3, 4, 5, 6])
+    if lib.rng_for(case["seed"], case["idx"], 828).random() < 0.08:
+        n = 1            # the single-initiator arbiter (purely combinational) a little more often
     dw = rnd.choice([8, 16, 32, 64])
     gran = rnd.choice([g for g in (8, 16, 32, 64) if g <= dw])
     aw = 8
